@@ -173,6 +173,18 @@ def check_following(chk, prog, sim):
                 else:
                     good = good and rok
                 what = "followed getter present: exactly one set(value), its error propagated"
+            # the followed getter must not stay borrowed while set() runs (set may itself reach that getter: a queue it pops, a lock it takes)
+            live = []
+            for e in leaf.effects:
+                if e[0] in ("ref_borrow", "ref_borrow_mut"):
+                    live.append(e[1])
+                elif e[0] == "ref_release" and e[1] in live:
+                    live.remove(e[1])
+                elif e[0] == "call" and e[2].endswith("Settable::set") and live:
+                    chk.violation("C15.F", "%s:borrow-across-set" % key, "update_following_data calls set() while the followed getter (%s) is still borrowed: a settable whose set touches that getter panics (RefCell) or deadlocks (Mutex) instead of receiving the value"
+                                  % live[-1], fn=fn["pretty"], file=loc(fn["span"]))
+                    ok = False
+                    break
             if not good:
                 chk.violation("C15.F", "%s:%s:%s" % (key, cat, following), "update_following_data with followed getter %s (%s): returns %r, set calls %s" % (cat, what, ret, sets),
                               fn=fn["pretty"], file=loc(fn["span"]), path=leaf.pc)
@@ -195,6 +207,11 @@ def check_following(chk, prog, sim):
                     if isinstance(d, Struct):
                         names = [n for n, _ in sim.adt_fields(d.ty)]
                         stored = d.fields[names.index("following")]
+            extra = [e for e in leaf.effects if e[0] == "call" and e[2].split("::")[-1] not in ("get_settable_data_mut", "get_settable_data_ref")]
+            if extra:
+                chk.violation("C15.F", "%s:%s:side-effect" % (key, name), "%s does more than store the link: it calls %s (nothing may be forwarded, polled or set outside update)"
+                              % (name, [e[2] for e in extra][:3]), fn=f["pretty"], file=loc(f["span"]))
+                ok = False
             good = leaf.kind == "return" and isinstance(stored, Enum) and stored.vname == expect and \
                 (expect == "None" or stored.fields[0] == sim.final_value(leaf.state, args[1]))
             if not good:
